@@ -355,10 +355,15 @@ def _invoke(item, ds, circuit, hooks):
         method = o.pop("method")
         if method == "mrq-fit":
             prefit = o.pop("prefit")
+            foreign = o.pop("foreign", False)
             if prefit:
                 fit = pyimpspec.fit_circuit(circuit, ds, method=prefit[0], weight=prefit[1], num_procs=1)
                 hooks["extra_circuit"] = fit.circuit
                 hooks["extra_before"] = circuit_state(fit.circuit)
+                if foreign:
+                    # a fit object together with a circuit that is NOT the fitted one (same code, other object and values): the library
+                    # refuses this today; whatever it returns instead must still be one consistent result
+                    return [pyimpspec.calculate_drt(ds, method="mrq-fit", circuit=circuit, fit=fit, num_procs=1, **o)], ()
                 return [pyimpspec.calculate_drt(ds, method="mrq-fit", circuit=fit.circuit, fit=fit, num_procs=1, **o)], ()
             return [pyimpspec.calculate_drt(ds, method="mrq-fit", circuit=circuit, num_procs=1, **o)], ()
         if method == "tr-nnls":
@@ -885,6 +890,8 @@ def opts_mrq(prefit=True):
         start = fit_model.perturb(rng, ctx["spec"], factor=2.0, dn=0.03)
         o = {"method": "mrq-fit", "gaussian_width": float(rng.choice([0.15, 0.3])), "num_per_decade": int(rng.choice([10, 100])),
              "prefit": [str(rng.choice(["least_squares", "leastsq"])), str(rng.choice(["boukamp", "modulus", "proportional"]))] if prefit else None}
+        if prefit and rng.random() < 0.3:
+            o["foreign"] = True
         return o, start
 
     return fn
